@@ -57,7 +57,7 @@ def to_model_lines(impl_lines, impl_out, prod_store=None):
             ml.append(vlib.line("ml.start", "T", "T", "") if fresh else vlib.line("ml.restart", "T")); exp.append(o); idx.append(i); fresh = False
             continue
         if op in ("l.open", "l.change"):
-            ml.append(vlib.line("ml.edit", f[1], *pkgs_fields(last_parse)))
+            ml.append(vlib.line("ml.edit", f[1], *pkgs_fields(last_parse), f[2]))      # last field: the document text (code actions)
         elif op == "l.init":
             ml.append(vlib.line("ml.init", *f[1:]))
         elif op in ("l.start", "l.config", "l.cache", "l.tags", "l.now", "l.close", "l.action", "l.reply", "l.settle", "l.dump"):
